@@ -26,6 +26,7 @@ class Generated:
         self.sidecars = {}
         self.stubs = []
         self.notes = []
+        self.unit_rewrites = []
 
     def add(self, text, origin, tags):
         for ln in text.split('\n'):
@@ -171,6 +172,12 @@ def process_template(path, crate, repo, gen=None, depth=0):
             gen.add('\n'.join(sig), f'contract of {a[0]}::{a[1]} (proved in unit {a[0]})', tags)
             gen.add('{ unimplemented!() }', f'{rel}:{i+1}', tags)
             gen.stubs.append({'unit': a[0], 'fn': a[1], 'as': new_name})
+        elif kw == 'unit-rewrite':
+            # //@unit-rewrite <rule> /re/ -> repl : applied to every function extracted in this unit after this line
+            m = re.match(r'(\w+)\s+/(.*)/\s*->\s*(.*)$', arg)
+            if not m:
+                raise ExtractionError(f'{rel}:{i+1}: bad unit-rewrite')
+            gen.unit_rewrites.append((m.group(2), m.group(3), m.group(1)))
         elif kw == 'expect-fail':
             gen.expect_fail.update(arg.split())
         elif kw in ('fn', 'twin'):
@@ -217,7 +224,7 @@ def process_template(path, crate, repo, gen=None, depth=0):
             fn = crate.find_fn(sc.module, sc.name, sc.impl_re)
             log = X.RuleLog()
             lost = []
-            woven = X.weave(fn, sc, log, lost)
+            woven = X.weave(fn, sc, log, lost, gen.unit_rewrites)
             gen.lost.extend(lost)
             for k, v in log.counts.items():
                 gen.rule_counts[k] = gen.rule_counts.get(k, 0) + v
